@@ -400,3 +400,26 @@ def c12(ctx):
                    "known dependency finding (nettle ignores the last Ed448 signature byte) has its own signature"]
     cov, mn = P.generic_harness_check(ctx, "C12_providers", rule, assumptions, min_nontrivial={"quick": 3000, "thorough": 50000})
     return P.finish(ctx, "exploration", cov, assumptions, mn)
+
+
+# ---------------------------------------------------------------- C17
+harness_job("C17_oom", extra_link="")
+std_replayer("C17", "C17_oom", extra_link="")
+
+
+@P.check("C17")
+def c17(ctx):
+    """allocation failure: fork-per-fault enumeration of every allocation index of every scenario"""
+    rule = ("fault enumeration: a catalogue of scenarios (scripts of public calls: load JWK/JWKS of every key type through jwks_create / load_strn / load_fromfp, onto empty "
+            "and existing sets; builder new / typed and JSON set / merge / get / del / time offsets / setkey / mutating callback / generate twice for none, HS*, RS*, PS*, ES*, "
+            "EdDSA; checker new / setkey / claims / leeway / reading callback / verify of a good token and of tokens bad at each layer incl. an empty-key HS256 forgery / good token "
+            "afterwards; keyring find / error_any / free_bad / free / free_all; both providers) is run once with a counting allocator installed through jwt_set_alloc (N allocations, "
+            "baseline transcript of every return value, token and verdict), then for EVERY k in 1..N a forked child runs it with exactly the k-th request returning NULL. "
+            "Oracle (stop mode): the child's transcript equals the baseline, or is a proper prefix followed by one documented failure value (NULL / non-zero / set or item error) "
+            "after which only frees run; never a crash or sanitizer report, never verdict 0 where the baseline rejected, never a token whose header.payload (whole token for "
+            "deterministic algs) differs or whose signature the reference verifier rejects. Non-trivial: every fault index lands inside a library call; distinct = distinct "
+            "(scenario family, libjwt/jansson call chain of the failing request).")
+    assumptions = ["single fault per run, as the statement says", "allocations inside OpenSSL/GnuTLS are outside jwt_set_alloc and are not failed",
+                   "leaks are not part of the statement (LSan off)", "the failing request's call chain (backtrace + sanitizer symbolizer) is the root-cause key of a violation"]
+    cov, mn = P.generic_harness_check(ctx, "C17_oom", rule, assumptions, extra_link="", exhaustive=True, min_nontrivial={"quick": 40, "thorough": 60})
+    return P.finish(ctx, "fault_enumeration", cov, assumptions, mn)
